@@ -67,21 +67,42 @@ def run(ctx):
             aj = load_jsonl(os.path.join(ctx.work, "acases.jsonl"))
             ej = load_jsonl(os.path.join(ctx.work, "ecases.jsonl"))
             lj = load_jsonl(os.path.join(ctx.work, "lcases.jsonl"))
+            fj = load_jsonl(os.path.join(ctx.work, "fcases.jsonl"))
             for rc_ in meta.get("e2e_refused") or []:
                 ctx.violation("e2e-binary-refuses-valid-rules", dict(rc_, kind="e2e"), True,
                               "the real binary exits at start-up when given these valid rules through %s: %s"
                               % (rc_.get("observed_at"), json.dumps(rc_)[:300]))
             if meta.get("e2e_error"):
                 ob_failed.append("end-to-end run failed: " + meta["e2e_error"])
+            strict_e = {"M": set(), "P": set()}      # ecases failing the strict checks (indices)
             for shard in meta["shards"]:
                 r = res.get(shard) or {}
                 kind, idx = shard.split("_")[0], int(shard.split("_")[1].split(".")[0])
                 base = idx * meta["shard_size"]
-                src = {"pcases": pj, "acases": aj, "ecases": ej, "lcases": lj}[kind]
+                if kind == "ecases":
+                    # strict end-to-end checks: only used to tell the net/http empty-User-Agent
+                    # artefact apart (see Check.ua_norm); decisions use the "ecasesua" shard
+                    for ident in ("M", "P"):
+                        strict_e[ident].update(base + i for i in (ctx.parse_nlist(r.get(ident)) or []))
+                    continue
+                src = {"pcases": pj, "acases": aj, "ecasesua": ej, "lcases": lj, "fcases": fj}[kind]
+                kind = "ecases" if kind == "ecasesua" else kind
                 for ident, acc in (("M", model_bad), ("P", prop_bad)):
                     for i in (ctx.parse_nlist(r.get(ident)) or []):
                         case = src[base + i] if base + i < len(src) else {"index": base + i}
                         acc.append((kind, case))
+            ua_fail = {json.dumps(c, sort_keys=True) for k, c in prop_bad + model_bad if k == "ecases"}
+            ua_only = [ej[i] for i in sorted(strict_e["P"]) if i < len(ej)
+                       and json.dumps(ej[i], sort_keys=True) not in ua_fail]
+            if ua_only:
+                c0 = min(ua_only, key=lambda c: len(json.dumps(c)))
+                d = dict(c0)
+                d["case_kind"], d["kind"] = d.get("kind"), "e2e"
+                ctx.violation("e2e-user-agent-written-once-by-net-http", d, True,
+                              "%d end-to-end request cases where the rules leave User-Agent empty or with several values and the "
+                              "next hop sees what net/http's request writer makes of it (no field / the first value only), "
+                              "everything else as the rules say; smallest: %s"
+                              % (len(ua_only), json.dumps(c0)[:400]))
 
     def smallest(cases):
         return min(cases, key=lambda kc: len(json.dumps(kc[1])))
@@ -90,13 +111,14 @@ def run(ctx):
         kind, case = kc
         d = dict(case)
         d["case_kind"] = d.get("kind")
-        d["kind"] = {"pcases": "parser", "acases": "applier", "ecases": "e2e", "lcases": "rule-list"}[kind]
+        d["kind"] = {"pcases": "parser", "acases": "applier", "ecases": "e2e", "lcases": "rule-list", "fcases": "channel"}[kind]
         return d
 
     # 5. decide (DESIGN.md 2.2)
     # end-to-end cases are keyed by message kind (call site), so a known finding on one
     # kind does not hide a violation on another
-    streams = [("pcases", "parser", None), ("acases", "applier", None), ("lcases", "rule-list", None)]
+    streams = [("pcases", "parser", None), ("acases", "applier", None), ("lcases", "rule-list", None),
+               ("fcases", "channel", None)]
     streams += [("ecases", "e2e-" + k, k) for k in ("ReqPlain", "ReqConnect", "ReqConnectOwn", "RespPlain", "RespConnect")]
     for kind, label, sub in streams:
         pb = [kc for kc in prop_bad if kc[0] == kind and (sub is None or kc[1].get("kind") == sub)]
@@ -159,7 +181,9 @@ def run(ctx):
         "theorems": info["theorems"],
         "coqchk": chk,
         "unchecked_obligations": ob_failed,
-        "evaluations": int(meta.get("parser_cases", 0)) + int(meta.get("applier_cases", 0)) + int(meta.get("e2e_cases", 0)),
+        "evaluations": int(meta.get("parser_cases", 0)) + int(meta.get("applier_cases", 0)) + int(meta.get("e2e_cases", 0))
+                       + int(meta.get("channel_cases", 0)),
+        "channel_cases_by_source": meta.get("channel_kinds"),
         "e2e_cases_real_binary": meta.get("e2e_kinds"),
         "distinct_nontrivial": nontriv,
         "rule": "parser: every string of length <= %s over a 12-symbol alphabet (exhaustive) + grammar-generated rules + mutated rules; "
@@ -171,7 +195,7 @@ def run(ctx):
         "distribution": {k: meta.get(k) for k in ("parser_accepted", "parser_rejected", "applier_rule_actions",
                                                    "applier_rule_list_lengths")},
         "samples": [{"parser_inputs": meta.get("samples_parser")}, {"applier": meta.get("samples_applier")},
-                    {"e2e": meta.get("samples_e2e")}],
+                    {"e2e": meta.get("samples_e2e")}, {"channel": meta.get("samples_channel")}],
     }
     ctx.finish("proof", coverage, [
         "the theorems are about the Gallina model; the model is tied to the code by gen/tables (shape flags, regex literals) "
